@@ -401,8 +401,11 @@ def _stack(p):
             if not (numpy.all(numpy.isfinite(a)) or numpy.all(numpy.isfinite(b))):
                 continue             # no flux left in this frame for both paths: undefined
             e = _err(a, b)
+            tol_here = 1e-6 if p.get("dtype") == "float32" else TOL      # single-precision data: its own rounding
+            if e <= tol_here:
+                e = min(e, TOL)
             worst = max(worst, e)
-            if not e <= TOL:
+            if not e <= tol_here:
                 cl = _classify(alpha[i], par, a, b) if fn == "cog" and par != 0 else "other"
                 classes.setdefault(cl, {"stack_of_images": [alpha[j] for j in idx], "frame": k,
                                         "stack_answer_xy": a, "frame_alone_xy": b})
